@@ -364,6 +364,10 @@ def replay(path):
         shard = mod.replay_shard(v)
     else:
         shard = {"interp": v["interp"], "cases": [v["case"]], "label": "replay", "tier": "quick", "seed": 0}
+    if isinstance(v.get("case"), dict) and isinstance(v["case"].get("partner_case"), dict) and isinstance(shard.get("cases"), list):
+        # observed by the re-entrant / threaded stress: it needs a second input to interleave with
+        shard["cases"] = [dict((k, x) for k, x in c.items() if k not in ("partner_case", "partner", "stress")) for c in shard["cases"]]
+        shard["cases"].append(v["case"]["partner_case"])
     if isinstance(v.get("case"), dict) and v["case"].get("k") == "storm":
         shard["cases"] = []          # observed during the fault storm itself: the storm is the case
         shard["storm"] = True
